@@ -124,6 +124,31 @@ func (c *Ctx) evalExpr(e ast.Expr, info *types.Info, env map[types.Object]int64,
 			return bpVal{}, false
 		}
 		switch x.Op {
+		case token.AND:
+			return bpVal{i: l.i & r.i}, true
+		case token.OR:
+			return bpVal{i: l.i | r.i}, true
+		case token.XOR:
+			return bpVal{i: l.i ^ r.i}, true
+		case token.ADD:
+			return bpVal{i: l.i + r.i}, true
+		case token.SUB:
+			return bpVal{i: l.i - r.i}, true
+		case token.REM:
+			if r.i == 0 {
+				return bpVal{}, false
+			}
+			return bpVal{i: l.i % r.i}, true
+		case token.SHR:
+			if r.i < 0 || r.i > 62 {
+				return bpVal{}, false
+			}
+			return bpVal{i: l.i >> uint(r.i)}, true
+		case token.SHL:
+			if r.i < 0 || r.i > 32 {
+				return bpVal{}, false
+			}
+			return bpVal{i: l.i << uint(r.i)}, true
 		case token.EQL:
 			return bpVal{isBool: true, b: l.i == r.i}, true
 		case token.NEQ:
@@ -138,8 +163,40 @@ func (c *Ctx) evalExpr(e ast.Expr, info *types.Info, env map[types.Object]int64,
 			return bpVal{isBool: true, b: l.i >= r.i}, true
 		}
 		return bpVal{}, false
+	case *ast.IndexExpr:
+		// lookup in a package-level table
+		id, ok := x.X.(*ast.Ident)
+		if !ok {
+			return bpVal{}, false
+		}
+		tv, ok := info.Uses[id].(*types.Var)
+		if !ok || tv.Parent() != tv.Pkg().Scope() {
+			return bpVal{}, false
+		}
+		idx, ok := c.evalExpr(x.Index, info, env, depth)
+		if !ok || idx.isBool {
+			return bpVal{}, false
+		}
+		return c.evalTable(tv, idx.i, depth+1)
 	case *ast.CallExpr:
 		if len(x.Args) != 1 {
+			return bpVal{}, false
+		}
+		// conversions between integer types: byte(c), int(ch) (values here are 0..255, no truncation except to byte)
+		if tvv, isType := info.Types[x.Fun]; isType && tvv.IsType() {
+			if b, ok := tvv.Type.Underlying().(*types.Basic); ok && b.Info()&types.IsInteger != 0 {
+				a, ok := c.evalExpr(x.Args[0], info, env, depth)
+				if !ok || a.isBool {
+					return bpVal{}, false
+				}
+				switch b.Kind() {
+				case types.Uint8:
+					return bpVal{i: a.i & 0xff}, true
+				case types.Int8:
+					return bpVal{}, false
+				}
+				return a, true
+			}
 			return bpVal{}, false
 		}
 		var callee *types.Func
@@ -184,4 +241,128 @@ func byteSetString(set [256]bool) string {
 		b = e + 1
 	}
 	return "{" + s + "}"
+}
+
+// evalTable: element i of a package-level array that is written only by its initialiser, which is either a
+// composite literal with constant keys and values, or the fill idiom
+//
+//	var t = func() (t [N]bool) { for c := range t { t[c] = EXPR(c) }; return t }()
+func (c *Ctx) evalTable(v *types.Var, i int64, depth int) (bpVal, bool) {
+	if depth > 8 {
+		return bpVal{}, false
+	}
+	arr, ok := v.Type().Underlying().(*types.Array)
+	if !ok || i < 0 || i >= arr.Len() {
+		return bpVal{}, false // out of range would panic: not a total predicate
+	}
+	// find the declaration and make sure nothing else assigns to (an element of) the variable
+	var spec *ast.ValueSpec
+	var info *types.Info
+	var specIdx int
+	for _, p := range c.Mod {
+		if p.Types != v.Pkg() {
+			continue
+		}
+		info = p.TypesInfo
+		for _, f := range p.Syntax {
+			ast.Inspect(f, func(n ast.Node) bool {
+				switch x := n.(type) {
+				case *ast.ValueSpec:
+					for k, name := range x.Names {
+						if p.TypesInfo.Defs[name] == types.Object(v) {
+							spec, specIdx = x, k
+						}
+					}
+				case *ast.AssignStmt:
+					for _, l := range x.Lhs {
+						base := l
+						if ie, ok := base.(*ast.IndexExpr); ok {
+							base = ie.X
+						}
+						if id, ok := base.(*ast.Ident); ok && p.TypesInfo.Uses[id] == types.Object(v) {
+							spec = nil
+							info = nil
+						}
+					}
+				case *ast.UnaryExpr:
+					if x.Op == token.AND {
+						if id, ok := x.X.(*ast.Ident); ok && p.TypesInfo.Uses[id] == types.Object(v) {
+							info = nil // address taken
+						}
+					}
+				}
+				return true
+			})
+		}
+	}
+	if spec == nil || info == nil || specIdx >= len(spec.Values) {
+		return bpVal{}, false
+	}
+	switch init := spec.Values[specIdx].(type) {
+	case *ast.CompositeLit:
+		res := bpVal{isBool: isBoolType(arr.Elem())}
+		pos := int64(0)
+		for _, el := range init.Elts {
+			val := el
+			if kv, ok := el.(*ast.KeyValueExpr); ok {
+				k, ok := c.evalExpr(kv.Key, info, nil, depth)
+				if !ok || k.isBool {
+					return bpVal{}, false
+				}
+				pos, val = k.i, kv.Value
+			}
+			if pos == i {
+				return c.evalExpr(val, info, nil, depth)
+			}
+			pos++
+		}
+		return res, true // zero value
+	case *ast.CallExpr:
+		fl, ok := init.Fun.(*ast.FuncLit)
+		if !ok || len(init.Args) != 0 || fl.Type.Results == nil || len(fl.Type.Results.List) != 1 || len(fl.Type.Results.List[0].Names) != 1 || len(fl.Body.List) != 2 {
+			return bpVal{}, false
+		}
+		resObj := info.Defs[fl.Type.Results.List[0].Names[0]]
+		rng, ok := fl.Body.List[0].(*ast.RangeStmt)
+		ret, ok2 := fl.Body.List[1].(*ast.ReturnStmt)
+		if !ok || !ok2 || rng.Value != nil || rng.Key == nil || len(rng.Body.List) != 1 {
+			return bpVal{}, false
+		}
+		if len(ret.Results) == 1 {
+			if id, ok := ret.Results[0].(*ast.Ident); !ok || info.Uses[id] != resObj {
+				return bpVal{}, false
+			}
+		} else if len(ret.Results) != 0 {
+			return bpVal{}, false
+		}
+		if id, ok := rng.X.(*ast.Ident); !ok || info.Uses[id] != resObj {
+			return bpVal{}, false
+		}
+		keyID, ok := rng.Key.(*ast.Ident)
+		if !ok {
+			return bpVal{}, false
+		}
+		keyObj := info.Defs[keyID]
+		as, ok := rng.Body.List[0].(*ast.AssignStmt)
+		if !ok || as.Tok != token.ASSIGN || len(as.Lhs) != 1 || len(as.Rhs) != 1 {
+			return bpVal{}, false
+		}
+		lhs, ok := as.Lhs[0].(*ast.IndexExpr)
+		if !ok {
+			return bpVal{}, false
+		}
+		if id, ok := lhs.X.(*ast.Ident); !ok || info.Uses[id] != resObj {
+			return bpVal{}, false
+		}
+		if id, ok := lhs.Index.(*ast.Ident); !ok || info.Uses[id] != keyObj {
+			return bpVal{}, false
+		}
+		return c.evalExpr(as.Rhs[0], info, map[types.Object]int64{keyObj: i}, depth)
+	}
+	return bpVal{}, false
+}
+
+func isBoolType(t types.Type) bool {
+	b, ok := t.Underlying().(*types.Basic)
+	return ok && b.Kind() == types.Bool
 }
